@@ -20,7 +20,7 @@ N(tok) == NumOf(tok)
 
 \* name pools: ordinary names and names that also exist in the sympy namespace
 StateNames1 == {"V", "S", "beta"}
-StateNames2 == {"w", "E", "gamma"}
+StateNames2 == {"w", "E", "gamma", "V"}     \* "V" also in StateNames1: two states with one local name (c1.V, c2.V)
 NestNames == {"alpha", "I", "N"}
 ConstNames == {"g", "Q", "zeta"}
 \* the constant that exists in ONE component only keeps its local name as unique name;
@@ -33,7 +33,7 @@ Init == pc = "pick" /\ s1 = "" /\ s2 = "" /\ nest1 = "" /\ nest2 = "" /\ deep = 
 Pick1 == /\ pc = "pick" /\ s1' \in StateNames1 /\ s2' \in StateNames2 /\ cn' \in ConstNames /\ pn' \in OnlyNames /\ pc' = "pick2"
          /\ UNCHANGED <<nest1, nest2, deep, shape>>
 Pick2 == /\ pc = "pick2" /\ nest1' \in NestNames /\ nest2' \in NestNames   \* equal names = clashing local names under different parents
-         /\ deep' \in BOOLEAN /\ shape' \in 1..4 /\ pc' = "done" /\ UNCHANGED <<s1, s2, cn, pn>>
+         /\ deep' \in BOOLEAN /\ shape' \in 1..5 /\ pc' = "done" /\ UNCHANGED <<s1, s2, cn, pn>>
 Spec == Init /\ [][Pick1 \/ Pick2]_vars
 Done == pc = "done"
 
@@ -53,6 +53,8 @@ Model ==
             e |-> CASE shape = 1 -> Bn("add", Bn("mul", Ref(n.a1), Ref(n.v1)), Ref(n.g1))
                     [] shape = 2 -> Bn("sub", Ref(n.a1), Bn("mul", Ref(n.v2), Ref(n.p1)))
                     [] shape = 3 -> Cond(Rel("Gt", Ref(n.v1), Ref(n.g1)), Ref(n.a1), Neg(Ref(n.v1)))
+                    \* a cascade of thresholds whose first branch has the value of the default (Myokit: piecewise(c1, 0, c2, a, 0))
+                    [] shape = 5 -> Cond(Rel("Lt", Ref(n.v1), One), N("0"), Cond(Rel("Lt", Ref(n.v1), Ref(n.p1)), Ref(n.a1), N("0")))
                     [] OTHER -> Bn("div", Ref(n.a1), Bn("add", One, Bn("mul", Ref(n.v1), Ref(n.v1))))])
   @@ (n.a1 :> [kind |-> "inter", e |-> IF deep THEN Bn("add", Bn("mul", Ref(n.p1), Two), Ref(n.k1)) ELSE Bn("mul", Ref(n.p1), Two)])
   @@ (IF deep THEN (n.k1 :> [kind |-> "inter", e |-> Bn("sub", Ref(n.v1), N("3"))]) ELSE <<>>)
